@@ -201,9 +201,43 @@ def judge(ctx, parser, PErr, s, origin):
                             dict(string=s))
             else:
                 ctx.count('print_parse_fixpoints')
+                if origin != 'exhaustive' or ctx.counters['judged'] % 50 == 0:
+                    edited_path_prints(ctx, parser, p, s)
         except Exception as e:
             ctx.violate('print-parse-raises:%s' % type(e).__name__, 'printout %r of parse(%r) does not parse' % (str(p), s),
                         dict(string=s), exc=e)
+
+
+def edited_path_prints(ctx, parser, p, s):
+    """A parsed path is an object with public parts (`subset_slice`, `add_component`): after it has been printed once, narrowing
+    the subset selector or adding a component and printing again gives the text of the path as it is NOW - the printout parses back
+    to the edited structure (print -> parse is a fixpoint for every path object, not only for untouched ones)."""
+    rng = ctx.rng
+    before = structure_of(p)
+    comps = list(before[1])
+    new_sel = rng.choice([3, 0, slice(1, None, None), slice(None, 4, 2), slice(None, None, None), slice(-2, None, None)])
+    try:
+        p.subset_slice = new_sel
+        t1 = str(p)
+        got1 = structure_of(parser.parse(t1))
+        ctx.count('edited_paths_printed')
+        if got1 != (new_sel, comps):
+            ctx.violate('print-after-edit/subset-selector', 'parse(%r), printed, subset_slice set to %r: prints as %r which parses to %r'
+                        % (s, new_sel, t1, got1), dict(string=s, edit='subset_slice', value=repr(new_sel)))
+            return
+        if p.components and rng.random() < 0.5:
+            c = p.components[rng.randrange(len(p.components))]
+            p.add_component(c)
+            comps.append((c.separator, c.id, c.slice))
+            t2 = str(p)
+            got2 = structure_of(parser.parse(t2))
+            ctx.count('edited_paths_printed')
+            if got2 != (new_sel, comps):
+                ctx.violate('print-after-edit/add-component', 'parse(%r), printed, a component added: prints as %r which parses to %r'
+                            % (s, t2, got2), dict(string=s, edit='add_component'))
+    except Exception as e:
+        ctx.violate('print-after-edit/raises:%s' % type(e).__name__, 'editing and printing parse(%r) raised %r' % (s, e),
+                    dict(string=s, edit='subset_slice/add_component'), exc=e)
 
 
 def rand_int(rng):
